@@ -26,6 +26,8 @@ def _worker(modname, func, args, budget_s):
     import warnings
     warnings.filterwarnings("ignore")
     sys.path.insert(0, VERIF)
+    if os.environ.get("VERIF_REPO"):
+        sys.path.insert(0, os.environ["VERIF_REPO"])
     t0 = time.time()
     try:
         mod = importlib.import_module(modname)
